@@ -679,7 +679,22 @@ def captured_name(f):
     return None
 
 
+_HQ_CACHE = {}
+
+
 def has_quantifier(t):
+    key = t.get_id()
+    hit = _HQ_CACHE.get(key)
+    if hit is not None and hit[1].eq(t):
+        return hit[0]
+    r = _has_quantifier(t)
+    if len(_HQ_CACHE) > 200000:
+        _HQ_CACHE.clear()
+    _HQ_CACHE[key] = (r, t)
+    return r
+
+
+def _has_quantifier(t):
     seen = set()
     todo = [t]
     while todo:
